@@ -6,8 +6,8 @@ def register(prop, J):
          rule="rapid-generated (base URL x context path x root name x encoded resource path x query); non-trivial = context "
               "path non-empty or path/query holds a %XX, dot segment or ROR2 delimiter; distinct by (base, path, query)",
          jobs=[
-             J("url-v2", "v2", "urlprops", "^TestC15", checks=(30000, 1500000), shards=(2, 16)),
-             J("url-v1", "v1", "urlprops", "^TestC15", checks=(15000, 500000), shards=(1, 16)),
+             J("url-v2", "v2", "urlprops", "^TestC15", checks=(30000, 22500000), shards=(2, 16)),
+             J("url-v1", "v1", "urlprops", "^TestC15", checks=(15000, 7500000), shards=(1, 16)),
          ],
          level_text="generated-input search against a URL model written from the property text: every generated (base URL, "
                     "encoded path, query) must come out byte-identical in scheme, host, escaped path, raw query and request target; "
